@@ -1,4 +1,4 @@
-import PydraModel.Sched.Progress
+import PydraModel.Sched.SyncTerm
 import PydraModel.Props.C14
 /-
 C17 — Workflow results do not depend on worker or schedule.
@@ -141,6 +141,46 @@ theorem C17_sync {wf : Wf} {k : Option Nat} {sorted : List NodeId} (hw : WellFor
       exact this n hd
   unfold outputs
   rw [jobs_are_reference hs.ninv hw.wip hac hr n hb hu]
+
+/-- the execution log of the synchronous loop never holds more entries than there are (reference) jobs -/
+theorem sync_log_bound {wf : Wf} {sorted : List NodeId} (hw : WellFormed wf sorted) (hac : Acyclic wf.g)
+    {r : NodeId → List Ck} (hr : RefJobs wf r) {st : St} (hs : SyncInv wf st) (ho : OutInit sorted st) :
+    st.futured.length ≤ (sorted.flatMap r).length := by
+  apply hs.nodup.length_le_of_subset
+  intro c hc
+  obtain ⟨l1, l2, hl⟩ := List.append_of_mem hc
+  obtain ⟨n, hb, hu, hcn, _⟩ := hs.logOrd l1 c l2 hl
+  have hn : n ∈ sorted := by
+    apply Classical.byContradiction
+    intro hnot
+    rw [ho n hnot] at hb
+    exact hb rfl
+  rw [jobs_are_reference hs.ninv hw.wip hac hr n hb hu] at hcn
+  exact List.mem_flatMap.mpr ⟨n, hn, hcn⟩
+
+/-- TERMINATION of the synchronous loop (debug worker), FULL: for every acyclic workflow, every `max_concurrent >= 1`
+    and every set of failing bodies, `2 * (jobs) + 2 * (nodes) + 3` iterations suffice — `outOfFuel` is unreachable, so
+    `C15_sync`, `C17_sync` and `C17_determinism` speak about the real, fuel-free loop -/
+theorem C17_sync_terminates {wf : Wf} {k : Option Nat} {sorted : List NodeId} (hw : WellFormed wf sorted)
+    (hc : ClosedGraph wf.g) (hac : Acyclic wf.g) (hk : k ≠ some 0) {r : NodeId → List Ck} (hr : RefJobs wf r)
+    (fail : Ck → Bool) (fuel : Nat) (hfuel : 2 * (sorted.flatMap r).length + 2 * sorted.length + 3 ≤ fuel) :
+    (runSync wf k sorted fail fuel).1 ≠ .outOfFuel := by
+  have hperm : ∀ n, n ∈ wf.g.nodes → n ∈ sorted := by
+    intro n hn
+    have := (sortFrom_spec wf.g [] sorted hw.sorted).2
+    simp only [if_true] at this
+    exact this.mem_iff.mpr hn
+  have hclosed : ∀ m, m ∈ sorted → ∀ p, p ∈ wf.preds m → p ∈ sorted :=
+    fun m _ p hp => hperm p (hc.src (p, m) (mem_preds_iff.mp hp))
+  have hs0 := syncInv_doPoll (k := k) hw.topo (syncInv_init wf)
+  have ho0 : OutInit sorted (doPoll wf k sorted (St.init (fun _ => .idle))) := by
+    intro n hn
+    show (scan wf (fun _ => Truth.idle) sorted ⟨fun _ => NS.init⟩ [] []).1.get n = NS.init
+    rw [scan_frame wf _ sorted _ [] [] hn (fun m hm hp => hn (hclosed m hm n hp))]
+  apply syncLoop_terminates hw.topo hk hperm hclosed fail (sorted.flatMap r).length
+    (fun st h1 h2 => sync_log_bound hw hac hr h1 h2) fuel _ hs0 ho0
+  right
+  omega
 
 /-- C17, FULL: two successful runs of the same workflow — any two schedules, any two limits, asynchronous or
     synchronous — return the same outputs -/
